@@ -70,14 +70,22 @@ def verify_function(prog, spec, con, mode='seq', options=None):
                 # environment's interference) and the contents right after it.
                 for (nm, before, after_g, line) in acts[:-1]:
                     goals = []
-                    for g, bt in before.ghost.items():
-                        if g.startswith('view$') and g in after_g:
-                            goals.append(bt == after_g[g])
+                    for g, at in after_g.items():
+                        if g.startswith('view$'):
+                            bt = before.ghost.get(g)
+                            if bt is None:
+                                ep = getattr(before, 'env_epoch', 0)
+                                bt = z3.Const(('g0_' if ep == 0 else 'gENV%d_' % ep) + mangle(g), at.sort())
+                            goals.append(bt == at)
                     ex.oblige(stf, 'C02/%s/step.%s.nonmodifying@L%s#%s' % (short, prog.short(nm), line, pid),
                               z3.And(*goals) if goals else z3.BoolVal(True), tags=['C02'], kind='step')
                 nm, before, after_g, line = acts[-1]
                 old_s = before
                 post_s = stf.copy()
+                post_s.env_epoch = getattr(before, 'env_epoch', 0)
+                for g in list(post_s.ghost.keys()):
+                    if g.startswith('view$'):
+                        del post_s.ghost[g]
                 for g, t in after_g.items():
                     if g.startswith('view$'):
                         post_s.ghost[g] = t
